@@ -89,7 +89,10 @@ def make_resolvers():
 
     def short(root, ctx, a=None):
         return 1
-    return {"exact": exact, "default": default, "kwargs": kwargs, "missing": missing, "few": few, "varargs": varargs, "short": short}
+
+    def argfirst(a, root, ctx, info):
+        return 1
+    return {"exact": exact, "default": default, "kwargs": kwargs, "missing": missing, "few": few, "varargs": varargs, "short": short, "argfirst": argfirst}
 
 
 def _memo_worker(hists):
